@@ -156,10 +156,13 @@ fn main() {
             };
             let ctx = make_ctx(&id, tier, false);
             install_traps(&id, &ctx.verif.join("failures"));
-            let limit = std::env::var("HV_CASE_TIMEOUT").ok().and_then(|s| s.parse().ok()).unwrap_or(900u64);
             // C05/C06/C07/C09: bounded in-process arithmetic, microseconds per case - not returning IS the failure;
             // everywhere else a stuck case is harness trouble (exit 2)
             let arithmetic = matches!(id.as_str(), "C05" | "C06" | "C07" | "C09");
+            // quick-tier arithmetic operands stay below a few dozen limbs (a case costs well under a millisecond), so three
+            // minutes for ONE case is already five orders of magnitude of slack; elsewhere cases spawn processes and compilers
+            let default_limit = if arithmetic && matches!(tier, Tier::Quick) { 180u64 } else { 900u64 };
+            let limit = std::env::var("HV_CASE_TIMEOUT").ok().and_then(|s| s.parse().ok()).unwrap_or(default_limit);
             start_hang_watchdog(&id, &ctx.verif.join("failures"), std::time::Duration::from_secs(limit), arithmetic);
             let code = run_check(&ctx);
             cleanup(&ctx);
